@@ -832,6 +832,17 @@ func TestC08(t *testing.T) {
 			}
 			return true
 		}
+		// strings around the edges of what a handler might "normalise" before validating: always sent
+		edge := []string{" ", "\t \n", "attributes:x\f", "\u00a0attributes:x", " attributes:x ", "attributes:x\n", "\vattributes:x", "attributes:x;", "ATTRIBUTES:x", "attributes:x AND", "()", "\"\""}
+		for k, s := range edge {
+			_, perr, crashed := parseGo(s)
+			if crashed != "" {
+				continue
+			}
+			if !try(s, perr == nil, 900000+k) || !tryUpdate(s, perr == nil) {
+				return
+			}
+		}
 		sort.Strings(acceptedInputs)
 		for k := 0; k < nAPI/2 && k < len(acceptedInputs); k++ {
 			if !tryUpdate(acceptedInputs[(k*11)%len(acceptedInputs)], true) {
